@@ -307,17 +307,17 @@ func TestC27(t *testing.T) {
 			rng.Read(hashes[i])
 		}
 
-		if deadlocks["deadlock:"+fam.name+":QueueResourcePack"] >= maxDeadlocksPerSignature {
-			// every further sequence of this family would park one more goroutine forever at
-			// its first queue operation; the defect is proven, do not pile up more: only the
-			// operations before the first queue are still run
-			cut := len(ops)
-			for i, o := range ops {
-				if o.Kind == "queue" {
-					cut = i
-					break
-				}
+		// Every proven deadlock parks one goroutine forever. Once a (family, method) deadlock has
+		// been proven maxDeadlocksPerSignature times, do not pile up more: further sequences of
+		// that family are cut before their first call of that method.
+		cut := len(ops)
+		for i, o := range ops {
+			if deadlocks["deadlock:"+fam.name+":"+methodOf[o.Kind]] >= maxDeadlocksPerSignature {
+				cut = i
+				break
 			}
+		}
+		if cut < len(ops) {
 			ops, opStrs = ops[:cut], opStrs[:cut]
 			skipped[fam.name]++
 			if cut == 0 {
@@ -655,7 +655,7 @@ func TestC27(t *testing.T) {
 	}
 	r.Set("calls_per_family_and_method", opsRun)
 	r.Set("proven_self_deadlocks", deadlocks)
-	r.Set("sequences_cut_before_first_queue_after_proven_deadlock", skipped)
+	r.Set("sequences_cut_before_a_method_proven_to_deadlock", skipped)
 	r.Set("sequences_completed", nCompleted)
 	r.Set("sequences_ended_early", nAbandoned)
 	r.Set("sequences_diverged_leniently_prompt_instead_of_auto_decline", nLenient)
